@@ -298,7 +298,13 @@ class PatternConstraintComponent(StringBasedConstraintBase):
                 re_pattern = str(p.value)
             else:
                 re_pattern = str(p)
-            re_matcher = re.compile(re_pattern, re_flags)
+            try:
+                re_matcher = re.compile(re_pattern, re_flags)
+            except re.error as e:
+                raise ConstraintLoadError(
+                    "PatternConstraintComponent sh:pattern is not a valid regular expression: {}".format(str(e)),
+                    "https://www.w3.org/TR/shacl/#PatternConstraintComponent",
+                )
             self.compiled_cache[p] = re_matcher
 
     @classmethod
